@@ -187,7 +187,7 @@ def oracle_wide(case):
     if op == "intersect":
         e = case[2]
         lo, hi = max(d[1], e[1]), min(d[2], e[2])
-        return None if lo > hi else ("wide", lo, hi)   # not enumerable; compared against the model only
+        return "none" if lo > hi else ("{%d..%d}" % (lo, hi) if hi - lo > 100 else show(list(range(lo, hi + 1))))
     return None
 
 
